@@ -17,11 +17,10 @@ EXTENDS Naturals, Sequences, FiniteSets, TLC
 
 CONSTANTS N,          \* number of nodes (named 1..N)
           MaxLinks,   \* bound on the number of Link actions in a history
-          ForestOnly  \* TRUE: a link either joins two components or repeats an existing link
-
-\* Node.__add__ repeats the depth-first rebuild until no route table changes (repair of the stale-table defect on cyclic
-\* graphs).  SinglePass == TRUE gives the behaviour before the repair (one sweep), kept as a named deviation.
-SinglePass == FALSE
+          ForestOnly, \* TRUE: a link either joins two components or repeats an existing link
+          SinglePass  \* FALSE: Node.__add__ repeats the depth-first rebuild until no route table changes (the code since the
+                      \* repair of the stale-table defect on cyclic graphs); TRUE: one sweep only, the behaviour before
+                      \* the repair, kept as a named deviation (TLC finds the 5-ring counterexample to Shortest with it)
 
 Nodes == 1..N
 NoRoute == <<0, 0>>
